@@ -8,7 +8,8 @@ sys.path.insert(0, HERE)
 from vlib.main import MODULES  # noqa
 
 # properties whose check has passed the integration gate (quiet at 3 seeds, mutants caught)
-READY = ['C01', 'C02', 'C03', 'C04', 'C05', 'C06', 'C09', 'C10', 'C11', 'C13', 'C15', 'C16', 'C19', 'C20']
+READY = ['C01', 'C02', 'C03', 'C04', 'C05', 'C06', 'C07', 'C09', 'C10', 'C11', 'C12', 'C13', 'C14', 'C15', 'C16', 'C17',
+         'C19', 'C20']
 
 CHECKS = {
     'C01': dict(cat='fault_enumeration', ref='3 C01',
@@ -57,8 +58,11 @@ CHECKS = {
                      'instruction sequences with line numbers/sources/inclusion chains from the real parser are '
                      'compared with an independent document reader; phase-block permutation leaves outcome and '
                      'marker trace unchanged; cycles/unknown headers are errors.',
-                note='API layer through test_case_parser.new_parser with the production setup + CLI layer.',
-                technique='Hypothesis line-kind grammar, reference reader + metamorphic permutation'),
+                note='API layer through test_case_parser.new_parser with the production setup + CLI layer; exhaustive '
+                     'for all documents of <= 3 (quick) / 4 (thorough) lines over the line-kind alphabet; coverage-'
+                     'guided campaign over the same decoder. Known finding KF-C07-1 identified by a defect model.',
+                technique='exhaustive small documents + Hypothesis line-kind grammar + atheris, reference reader, '
+                          'model-free source-text invariant, metamorphic phase permutation'),
     'C08': dict(cat='exploration', ref='3 C08',
                 text='Generated def/reference programs over all value types placed in any phases; reference '
                      'interpreter of scoping, single definition and per-context type matrix decides '
@@ -87,8 +91,11 @@ CHECKS = {
                 text='Relativity options x suffix shapes x path-symbol chains x use sites x phases; resolved path vs '
                      'documented root; destination arguments reject non-writable relativities; home snapshot '
                      'unchanged.',
-                note='Known finding (doc/BUGS.rst) identified by a defect model.',
-                technique='Hypothesis generation, documented-root oracle + snapshot invariant'),
+                note='Enumerated matrices destination form / reading site x phase x (option | symbol chain to depth '
+                     '3 (quick) / 4 (thorough)), cd matrix, random cases; known findings KF-C12-1/2 (doc/BUGS.rst) '
+                     'identified by defect models.',
+                technique='enumerated matrices + Hypothesis generation, documented-root oracle + home snapshot '
+                          'invariant'),
     'C13': dict(cat='exploration', ref='3 C13',
                 text='Exhaustive small integer-/line-matcher trees x all short texts at API level (accepted set vs '
                      'interval), plus generated line-matcher trees and range lists through the CLI compared with '
@@ -99,8 +106,11 @@ CHECKS = {
                 text='Stateful access sequences (as_str/as_lines/as_file/write_to/freeze) over string sources built '
                      'through the public API with every buffer size, and CLI metamorphic pairs (identity wrapping, '
                      'M vs (M && M), source kinds).',
-                note='Known findings identified by defect models.',
-                technique='Hypothesis stateful machine + metamorphic relations'),
+                note='Exhaustive: all 120 access orders on 12 source trees, every text of <= 3 characters over a '
+                     '4-letter alphabet x buffer sizes; known finding KF-C14-2 identified by a defect model plus a '
+                     'counterfactual re-run without newline translation.',
+                technique='Hypothesis access sequences + exhaustive small scope + atheris, reference text model, '
+                          'metamorphic relations (identity, M && M, source kinds)'),
     'C15': dict(cat='exploration', ref='3 C15',
                 text='Generated FILE-LISTs and directory trees with symlinks; reference list interpreter and matcher '
                      'evaluator over a tree data structure; populate-then-match round trip.',
@@ -112,10 +122,14 @@ CHECKS = {
                 note='',
                 technique='Hypothesis generation, reference model + reporter differential'),
     'C17': dict(cat='exploration', ref='3 C17',
-                text='Lists of mutator/observer cases in every order, and suites supplying phase contents; in-suite '
-                     'outcome equals standalone outcome; marker order = suite then case (cleanup reversed).',
-                note='',
-                technique='Hypothesis histories, differential standalone vs suite + order model'),
+                text='Lists of mutator/observer cases in every order, suites supplying every subset of phases x cases '
+                     'supplying every subset, 154 kinds of suite-level instructions consuming symbols the cases '
+                     'define differently; in-suite outcome and observations equal the standalone ones (three ways '
+                     'of running); marker order = suite then case (cleanup reversed); not inherited by sub-suites.',
+                note='Every differential run happens in a forked child so that the standalone reference starts '
+                     'from a process in which no other case has run.',
+                technique='Hypothesis histories + enumerated matrices, differential standalone vs suite (fork-'
+                          'isolated) + marker-order model'),
     'C18': dict(cat='exploration', ref='3 C18',
                 text='Grammar-generated valid cases mutated by token/char operators and ill-formed '
                      'integer/regex/glob vocab; oracle: documented exit codes only, no escaped exception, no '
